@@ -86,6 +86,17 @@ fn lifetime_job(ctx: &Ctx, cfg: &Cfg, depth: usize) -> JobOut {
                 if let Err(e) = check_accessors(cfg, s.as_ref()) {
                     return Some((i, e));
                 }
+                // the indicator's whole life includes its copies: a clone and a serde-restored copy
+                if let Err((c, g, w)) = check_accessors(cfg, s.dup().as_ref()) {
+                    return Some((i, (format!("{}-after-clone", c), g, w)));
+                }
+                if let Ok(bytes) = s.ser() {
+                    if let Ok(r) = s.de(&bytes) {
+                        if let Err((c, g, w)) = check_accessors(cfg, r.as_ref()) {
+                            return Some((i, (format!("{}-after-serde-roundtrip", c), g, w)));
+                        }
+                    }
+                }
             }
             None
         }));
@@ -168,7 +179,7 @@ pub fn run(ctx: &Ctx) -> CheckResult {
     let th = ctx.tier_thorough;
     let pmax = 4096usize;
     let tmax = 24usize;
-    let mults = [2.0, 0.0, -1.0, f64::NAN, 1e300];
+    let mults = [2.0, 0.0, -1.0, f64::NAN, 1e300, 2.71828, 1e-5, 1e305, -0.0, f64::INFINITY];
     let big: Vec<usize> = vec![1usize << 31, 1usize << 32, (1usize << 53) + 1, usize::MAX - 1, usize::MAX];
     // constructor jobs, grouped per kind
     let outs = par_run(ctx, &ALL_KINDS, |_, &k| {
@@ -244,7 +255,7 @@ pub fn run(ctx: &Ctx) -> CheckResult {
         for k in ALL_KINDS {
             cfgs.extend(generic_cfgs(k, &[1, 3, 10], &[2, 7]));
             if k.has_mult() {
-                for m in [0.0, -1.0, f64::NAN, 1e300] {
+                for m in [0.0, -1.0, f64::NAN, 1e300, 2.71828, 1e-5] {
                     cfgs.push(Cfg::pm(k, 4, m));
                 }
             }
@@ -257,6 +268,6 @@ pub fn run(ctx: &Ctx) -> CheckResult {
     }
     res.extra.insert("defaults".into(), json!(ALL_KINDS.iter().map(|k| k.default_cfg().display_text()).collect::<Vec<_>>()));
     res.rule = "case = one constructor call (every period / period tuple / multiplier listed in bounds) under catch_unwind in the overflow-checked build: Err(InvalidParameter) iff some period is 0, else Ok with period()/multiplier()/Display equal to the arguments; plus accessors re-checked after every operation of every history, and Default::default() vs new(documented defaults) output-by-output; non-trivial = constructor with a period > 1 / accessor check after >= 1 operation".into();
-    res.bounds = format!("single-period constructors: every period 0..={pmax}; multi-period: every tuple over 0..={tmax} plus every period 0..={pmax} in each position; multipliers {{2,0,-1,NaN,1e300}}; boundary periods 2^31, 2^32, 2^53+1, usize::MAX-1, usize::MAX for allocation-free indicators; accessors after every op of every history in seq(values+special+reset, {}); Default vs new(defaults) on all 4^{} input patterns", if th { 5 } else { 4 }, if th { 5 } else { 4 });
+    res.bounds = format!("single-period constructors: every period 0..={pmax}; multi-period: every tuple over 0..={tmax} plus every period 0..={pmax} in each position; multipliers {{2,0,-1,NaN,1e300,2.71828,1e-5,1e305,-0.0,inf}}; boundary periods 2^31, 2^32, 2^53+1, usize::MAX-1, usize::MAX for allocation-free indicators; accessors (also on a clone and on a bincode-restored copy) after every op of every history in seq(values+special+reset, {}); Default vs new(defaults) on all 4^{} input patterns", if th { 5 } else { 4 }, if th { 5 } else { 4 });
     res
 }
